@@ -269,8 +269,7 @@ package document
 //@   props C19 C12
 //@   requires details != nil && parentNode != nil
 //@   loop 1 invariant occur >= 1 && details != nil && parentNode != nil
-//@   loop 2 invariant occur >= 1 && details != nil && parentNode != nil
-//@   wraparound
+//@   loop 2 invariant occur >= 1 && occur <= 10001 && details != nil && parentNode != nil
 //@   assigns details
 //@   trustedframe
 //@   safety all
